@@ -2,6 +2,7 @@ import Anysystem.Proofs.SimNetThms
 import Anysystem.Proofs.SimQueueThms
 import Anysystem.Proofs.SimLogThms
 import Anysystem.Proofs.SimTraceInv
+import Anysystem.Proofs.SimTimeOrder
 /-!
 # C17 — Logs, event logs, counters and outboxes tell one consistent story
 
@@ -36,5 +37,13 @@ namespace Anysystem
 #check @Sim.TraceInv.addProcess
 #check @Sim.TraceInv.frame
 #check @Sim.single_fate_no_dupl
+
+/- "with the right time": the times recorded in the global trace (`Proofs/SimTimeOrder.lean`) -/
+#check @Sim.trace_times_sorted
+#check @Sim.step_trace_times
+#check @Sim.TraceTimeInv.steps
+#check @Sim.TraceTimeInv.sendLocal
+#check @Sim.TraceTimeInv.crashNode
+#check @Sim.TraceTimeInv.readLocal
 
 end Anysystem
